@@ -151,9 +151,7 @@ impl StringGenerator {
         let is_concealed = attr.is_concealed();
 
         if let Some(idx) = fore_idx {
-            if idx < 8 {
-                is_bold = false;
-            } else if idx > 7 && idx < 16 {
+            if idx > 7 && idx < 16 {
                 is_bold = true;
                 fore_idx = Some(idx - 8);
             }
